@@ -1,6 +1,6 @@
 (* C02 — executable trace acceptor for the client LTS (powerset simulation with closure under
    hidden events) and the correspondence entry point run_case_C02.  No proofs in this file. *)
-From SV Require Import Model.Common Model.Client.
+From SV Require Import Model.Common Model.Client Model.AckParse.
 
 (* ---------- decidable equality of states (used only to keep the state sets small) ---------- *)
 
@@ -197,8 +197,10 @@ Fixpoint decode_trace (fuel : nat) (zs : list Z) : option (list event) :=
 
 Definition str_badtrace : bytes := [98;97;100;116;114;97;99;101]. (* "badtrace" *)
 
-(* correspondence entry point.  kind 1 (and 2, 3: same encoding, different scenario family on the Go side) *)
+(* correspondence entry point.  kinds 1-4: an observed trace (same encoding, different scenario families on the Go
+   side); kind 5: bytes sent by an upstream, read by the fluentdforward connection's ReadChunkAck *)
 Definition run_case_C02 (c : case) : bytes :=
+  if c_kind c =? 5 then render_ack (parse_ack (ack_case_payload c)) else
   match c_zargs c with
   | cap :: maxage :: bug :: rest =>
     match decode_trace (length rest) rest with
